@@ -151,7 +151,8 @@ def check_set_tagged(rng, res, intern, stream, root, label):
     res.nontrivial({"h": in_heap, "t": tag.__name__, "v": repr(value)})
   if not deep:
     after = enc.reencode()
-    lt_g = g_list(sorted((g_N(intern("tag:" + t.__name__)) for t in lt), key=lambda s: int(s.split("%")[0])))
+    lt_g = g_list(sorted((g_N(intern("tag:" + nm)) for nm in sorted(t.__name__ for t in lt)),
+                        key=lambda s: int(s.split("%")[0])))
     stream.add(f"(mkcase {enc.sigenv()} {subtag_table(intern)} {in_heap} {root_ref} "
                f"{g_N(intern('tag:' + tag.__name__))} {xref} {common.g_bool(use_select)} {lt_g} {after.heap()})",
                meta={"label": label, "root": repr(root)[:1000], "tag": tag.__name__, "value": repr(value)})
